@@ -27,6 +27,21 @@ CLAIMED = {
          'by correspondence; Char.utf8Size as the octet count; python -O (assert stripped) not modelled; '
          'lines_roundtrip covers Contentlines.to_ical/from_ical for lines that start with a name character.',
          'DESIGN.md 6/C06'),
+ 'C05': ('Lean 4 proof (induction over the quote-aware scanners and the placeholder chains) + differential correspondence',
+         'Theorems for every token name, every parameter map of the domain and EVERY value text without LF: '
+         'parts(from_parts(n, p, v)) = (n, readBack p, viaPlaceholders v) where the only possible change is the '
+         'placeholder pass (escape_string/unescape_string) applied to each string - so the name is always preserved, '
+         'the set and number of parameter names is always preserved (no_param_injection: a value or parameter value can '
+         'never add, drop or rename a parameter or the property name), a raw LF is refused, raw_value() returns the '
+         'value text exactly, and under the decidable hazard-free hypothesis the join/split is the exact inverse. The '
+         'recorded findings D02/D03 are precisely "viaPlaceholders is not the identity" (decide witnesses; the '
+         'unrestricted inverse statement is refuted). Chains and character classes are regenerated from parser.py '
+         'every run. Tree-level no-injection (components/properties) is decided by the oracle on the implementation.',
+         'Trusted: Lean kernel; tools/extract.py; hand models of Contentline.parts / from_parts / raw_value tied by '
+         'correspondence (all lines <= 5 over {A ; : = " \\ , %}, hostile pieces in every position); ASCII names; '
+         'python -O (assert stripped) not modelled; parameter values within the domain (no double quote, no control '
+         'characters).',
+         'DESIGN.md 6/C05'),
  'C08': ('Lean 4 proof (induction over the quote-aware scanner) over translated character classes + differential correspondence',
          'Theorems for every parameter map in the stated domain (any number of parameters, list and string lengths): '
          'Parameters.from_ical(Parameters.to_ical(m)) = canon m (upper-cased sorted keys, values and their order kept, a '
